@@ -15,6 +15,20 @@ Base == [asset |-> 0, fee |-> 0, block |-> 1, number |-> 7, slots |-> [k \in 1 .
 Diff(b) == Cardinality({f \in {"asset", "fee", "block", "number", "slots", "nulls"} : b[f] # Base[f]})
 MCInnerDom == IF Dom = "near" THEN {b \in Full : Diff(b) <= 2} ELSE Full
 MCAddrDom == {0, 3}
+Pk(seq) == seq[RandomElement(1 .. Len(seq))]
+RandInner(z) == [asset |-> Pk(<<0, 0, 0, 0, 0, 0, 1>>), fee |-> Pk(<<0, 0, 0, 0, 0, 0, 1>>), block |-> Pk(<<0, 0, 1, 1, 1, 1, 1, 1, 2>>),
+              number |-> Pk(<<7, 8>>), slots |-> [k \in 1 .. 2 * NN |-> Pk(<<<<0, 0>>, <<3, 0>>, <<3, 1>>, <<0, 1>>>>)],
+              nulls |-> [k \in 1 .. NN |-> Pk(<<1, 2>>)]]
+SimInit == /\ inn = [k \in Idx |-> Base] /\ addr = 0
+           /\ pc = "pick" /\ i = 1 /\ ok = TRUE /\ isDummy = <<>> /\ found = FALSE
+           /\ ref = ZeroInnerHdr /\ fslots = <<>> /\ fnulls = <<>> /\ out = <<>>
+Pick == /\ pc = "pick"
+        /\ inn' = [k \in Idx |-> RandInner(k)]
+        /\ addr' = RandomElement({0, 3})
+        /\ pc' = "flags"
+        /\ UNCHANGED <<i, ok, isDummy, found, ref, fslots, fnulls, out>>
+SimSpec == SimInit /\ [][Pick \/ Next]_vars
+
 Emit == Finished =>
   PrintT(<<"REPLAY", ToJson([inn |-> inn, addr |-> addr, acc |-> IF ok THEN 1 ELSE 0, out |-> IF ok THEN out ELSE [total |-> 0]])>>)
 =============================================================================
